@@ -7,6 +7,15 @@ NOTES = ("All checks: bin/check <id>. Each run regenerates coq/Gen from /repo, r
          "Known findings: KNOWN_FINDINGS.txt.")
 NOT_APPLICABLE = {}
 CLAIMED = {
+    "C07": {
+        "text": "Theorems: after any sequence of deletions, emptyings and truncations of an entry's index and data file the reader answers miss or the complete "
+                "original bytes; for every import graph, package and cache state whose present entries are correct, the reflection information garble loads "
+                "equals what an empty-cache build computes, and the state stays correct (so every subset of missing entries is covered). Tied by driving the "
+                "real go-internal cache package through generated fault sequences against get_file in Coq, and by fault enumeration on real builds (asm with "
+                "go_asm.h names, linkname): files of GARBLE_CACHE and the patched linker deleted/emptied/truncated, rebuild compared with the cold reference.",
+        "note": "Trusted: Coq kernel; fixed-width index record and strict-prefix truncation (validated against the real package); cmd/go's own cache. No axioms.",
+        "technique": "Coq proof (invariant over fault sequences; induction over DAG rank) + correspondence with the real cache package + on-disk fault enumeration",
+    },
     "C19": {
         "text": "Theorems: the -debugdir target is refused exactly when it is a non-empty directory without the sentinel or not a directory, and emptied exactly "
                 "when it carries the sentinel; the deferred clean-up removes the directory this run created and nothing else, for every outcome and inherited "
